@@ -46,15 +46,12 @@ func genC32(pairs []pairT) func(t *rapid.T) c32Case {
 	}
 }
 
-// stallSignature names a stall of the stress run. A goroutine that waits in RLock inside a method that was called
-// from another method of the same receiver type is the shape of a nested read lock: it is named by the outer method.
+// stallSignature names a stall of the stress run: by the nested read lock if one of the waiters has that shape (see
+// nestedShape), otherwise by the set of broker functions that wait for locks.
 func stallSignature(ws []waiterT) (sig string, culprit *waiterT) {
 	for i, w := range ws {
-		if w.Wait == "RWMutex.RLock" && len(w.Frames) >= 2 {
-			t0, t1 := recvType(w.Frames[0]), recvType(w.Frames[1])
-			if t0 != "" && t0 == t1 {
-				return "C32-stress-stall-nested-rlock-" + w.Frames[1], &ws[i]
-			}
+		if outer, ok := nestedShape(w.Wait, w.Frames); ok {
+			return sigNested(outer), &ws[i]
 		}
 	}
 	set := map[string]bool{}
@@ -69,12 +66,8 @@ func stallSignature(ws []waiterT) (sig string, culprit *waiterT) {
 	return "C32-stress-stall-lock-waiters-" + strings.Join(fs, "+"), nil
 }
 
-func recvType(f string) string {
-	if i := strings.LastIndex(f, "."); i > 0 {
-		return f[:i]
-	}
-	return ""
-}
+// nestedCandidates: the methods a listed nested-read-lock finding can name (every probed method).
+var nestedCandidates []string
 
 func scenarioKey(sc scenarioT) string {
 	b, _ := json.Marshal(sc)
@@ -105,7 +98,13 @@ func checkStress32(sc scenarioT, r *evid.Rec) []evid.Disc {
 		r.NotAsserted()
 		return nil
 	}
-	cr, err := runChild(sc, stallWindowC, childLimit)
+	var listed []string
+	for _, m := range nestedCandidates {
+		if r.IsKnown(sigNested(m)) {
+			listed = append(listed, sigNested(m))
+		}
+	}
+	cr, err := runChild(sc, stallWindowC, childLimit, listed)
 	if err != nil {
 		r.Inconclusive("stress child process could not be started: " + err.Error())
 		r.NotAsserted()
@@ -168,7 +167,7 @@ func checkStress32(sc scenarioT, r *evid.Rec) []evid.Disc {
 				shown++
 			}
 		}
-		d := evid.D(sig, "no progress (client steps, bytes written by the broker, handlers returned, housekeeping and inline calls, Close) in two observations %v apart, and %d goroutines sit in lock acquisitions inside the broker in two dumps 0.5 s apart:%s", stallWindowC, len(res.Waiters), b.String())
+		d := evid.D(sig, "no progress (client steps, bytes written by the broker, handlers returned, housekeeping and inline calls, Close) for %.1f s (window: %v; %v for the shape of a listed finding), and %d goroutines sit in lock acquisitions inside the broker in two dumps 0.5 s apart:%s", float64(res.StallAfterMs)/1000, stallWindowC, earlyStallWindow, len(res.Waiters), b.String())
 		d.Ctx = "full goroutine dump of the stalled process (the artefact; the schedule itself is not replayable):\n" + res.Dump
 		ds = append(ds, d)
 	default:
@@ -215,6 +214,10 @@ func TestC32(t *testing.T) {
 	r.Assume("The statement's static clause (no code path re-acquires a read lock it holds) is replaced by the dynamic lock matrix: nested acquisition reachable only through unexported types is covered only as far as exported methods and the stress scenario reach it.")
 
 	pairs, unexported, unbuildable := matrixPairs()
+	nestedCandidates = nil
+	for _, p := range pairs {
+		nestedCandidates = append(nestedCandidates, p.String())
+	}
 	r.Set("lock_types_unexported(covered through exported methods only)", strings.Join(unexported, ","))
 	r.Set("matrix_pairs", len(pairs))
 	var np []string
@@ -246,18 +249,12 @@ func TestC32(t *testing.T) {
 	// listed wedges: confirmed once per run by a witness, then skipped (each wedge costs 2 s and two goroutines)
 	defaultTape := []int{1, 2, 3, 4, 5, 6, 7, 8, 9, 10, 11, 12}
 	for _, p := range pairs {
-		if r.IsKnown(sigMatrix(p)) {
-			confirmed := false
+		if r.IsKnown(sigNested(p.String())) || r.IsKnown("C32-matrix-wedge-"+p.String()) {
+			// checkProbe puts the pair on the skip list when it wedges with a listed signature
 			evid.Witness(t, r, c32Case{Probe: &probeT{Type: p.Type, Method: p.Method, Tape: defaultTape}}, func(c c32Case, r *evid.Rec) []evid.Disc {
-				ds := checkProbe(*c.Probe, r, skip)
-				for _, d := range ds {
-					confirmed = confirmed || d.Sig == sigMatrix(p)
-				}
-				return ds
+				r.Eval()
+				return checkProbe(*c.Probe, r, skip)
 			})
-			if confirmed {
-				skip[p.String()] = true
-			}
 		}
 	}
 	// sweep: every pair once with the default tape (sharded in the thorough tier)
